@@ -515,6 +515,19 @@ def run_runtime(res, tier, sc, drv):
                 else:
                     res.inconc("%s: solver unknown" % fname)
                 continue
+            if fname == "__Str$concat" and isinstance(p3.value, irsym.Sym):
+                # the helper hands back one of its operands.  The TypeScript prelude builds a new object (`[1, a + b]`),
+                # and object identity is observable (Vec<Str>.eq compares elements with ref.eq / ===)
+                r, m = solve(p3.pc)
+                if r == "unsat":
+                    discharged += 1
+                elif r == "sat":
+                    res.violation("__Str$concat returns its operand %s itself for strings of length %s/%s: under TypeScript the result is a new object, "
+                                  "and identity is observable (Vec<Str>.eq)" % (p3.value.key, m.eval(la), m.eval(lb)),
+                                  {"property": "C04", "function": fname, "len_a": str(m.eval(la)), "len_b": str(m.eval(lb)), "kind": "identity"})
+                else:
+                    res.inconc("%s: solver unknown" % fname)
+                continue
             if fname == "__Str$concat":
                 heap = getattr(p3, "heap", {})
                 parts = heap.get(("a", id(p3.value))) or (p3.value.elems, p3.value.zarr, p3.value.zlen)
